@@ -34,10 +34,10 @@ def make_substitution(ccls, case_map=None):
             ns["old"] = OldNS(dict(ns))
             ns["case"] = I.lift(callee_case)
             for name, f in contract_functions(ccls, "requires"):
-                t = I.truthy(I.call_value(f, bind_by_name(f, ns), {}))
+                t = I.truthy(I.spec_call(f, bind_by_name(f, ns)))
                 path.oblige(f"{I.unit_label}/{site}.{name}", z3.BoolVal(t) if isinstance(t, bool) else t)
             for name, f in contract_functions(ccls, "raises"):
-                d = I.call_value(f, bind_by_name(f, ns), {})
+                d = I.spec_call(f, bind_by_name(f, ns))
                 for k, c in path.cell(d).d.items():
                     if I.branch(c):
                         raise PyRaise(ExcV(k, ()))
@@ -56,7 +56,7 @@ def make_substitution(ccls, case_map=None):
             result = make_symbolic(I, rspec, f"{site}#{n}.result") if rspec is not None else None
             ns["result"] = result
             for name, f in contract_functions(ccls, "ensures"):
-                v = I.call_value(f, bind_by_name(f, ns), {})
+                v = I.spec_call(f, bind_by_name(f, ns))
                 cell = path.cell(v) if isinstance(v, Ref) else None
                 if isinstance(cell, DictCell):
                     for c in cell.d.values():
